@@ -512,6 +512,17 @@ def _reuse(p):
         k += variants.check_reuse(o, "cn2_profile", lambda x: f(x, second.copy(), 800e-9), cn2, 1e-13, sub=name, mutate=scale_)
         s2 = st_h if name != "coherenceTime" else numpy.array([w, w[::-1]])
         k += variants.check_reuse(o, "second_profile", lambda x: f(st_c.copy(), x, 800e-9, -1), s2, 1e-13, sub=name + ":stack", mutate=scale_)
+    # whole-number altitudes / speeds handed over as integer arrays (an altitude grid in metres usually is), float32,
+    # other memory layouts: the same values, the same result
+    hi = numpy.array([0., 2000., 5000., 10000., 15000., 22000.])
+    ci = numpy.array([5e-15, 2e-15, 1e-15, 3e-15, 1e-15, 4e-16])
+    wi = numpy.array([5., 10., 20., 30., 15., 60.])
+    for name, second in (("coherenceTime", wi), ("isoplanaticAngle", hi), ("rytov_variance", hi)):
+        f = getattr(ac, name)
+        k += variants.check_storage(o, "profile_independent_of_storage", lambda x: f(ci.copy(), x, 800e-9), second, 1e-12,
+                                    sub=name, kinds=("int64", "int32", "uint16", "float32"))
+        k += variants.check_storage(o, "profile_independent_of_storage", lambda x: f(numpy.array([ci, ci[::-1]]), x, 800e-9, -1),
+                                    numpy.array([second, second[::-1]]), 1e-12, sub=name + ":stack", kinds=("int64", "float32"))
     # one array through a chain of different functions: every later result is what a pristine copy gives
     hh = h.copy()
     got = [float(ac.isoplanaticAngle(cn2, hh)), float(ac.rytov_variance(cn2, hh)), float(ac.isoplanaticAngle(cn2, hh))]
